@@ -60,11 +60,12 @@ func main() {
 		tier      = flag.Int("tier", 0, "0 quick, 1 thorough (verifrt.Tier)")
 		mapOrder  = flag.Bool("maporder", false, "explore map iteration orders")
 		altMs     = flag.Int("alt-ms", 1000, "per-query timeout of the incremental session of the alternate solver")
+		gcPct     = flag.Int("gc-percent", 200, "GOGC of the engine process")
 		keepGlob  = flag.Bool("keep-globals", false, "do not reset package-level state between paths")
 		noAltSess = flag.Bool("no-alt-session", false, "hard-arithmetic queries go straight to the one-shot portfolio")
 	)
 	flag.Parse()
-	debug.SetGCPercent(200)
+	debug.SetGCPercent(*gcPct)
 	o := &output{Package: *pkgPat}
 	var cleanup func()
 	emit := func() {
